@@ -19,6 +19,15 @@ TYPES = {
                             ("Uint128::new(5u128)", '"5"')]),
     "Binary": ("Binary", [('Binary::from(b"hi".to_vec())', '"aGk="'), ("Binary::default()", '""')]),
     "U128": ("u128", [("18446744073709551617u128", '18446744073709551617'), ("5u128", '5')]),
+    "CoinQ": ("sylvia::cw_std::Coin", [('sylvia::cw_std::coin(5, "atom")', '{"denom":"atom","amount":"5"}'),
+                                       ('sylvia::cw_std::coin(0, "")', '{"denom":"","amount":"0"}')]),
+    "Arr4": ("[u8; 4]", [("[1u8, 2, 3, 255]", "[1,2,3,255]"), ("[0u8; 4]", "[0,0,0,0]")]),
+    "MapSU": ("std::collections::BTreeMap<String, u32>", [('std::collections::BTreeMap::from([("k".to_string(), 1u32), ("l".to_string(), 2u32)])', '{"k":1,"l":2}'),
+                                                         ("std::collections::BTreeMap::<String, u32>::new()", "{}")]),
+    "OptVecPair": ("Option<Vec<(u32, String)>>", [('Some(vec![(1u32, "a".to_string()), (2u32, "b".to_string())])', '[[1,"a"],[2,"b"]]'), ("None", "null")]),
+    "BoxNested": ("Box<Nested>", [('Box::new(Nested { a: 1, b: "n".to_string() })', '{"a":1,"b":"n"}'), ('Box::new(Nested { a: 2, b: String::new() })', '{"a":2,"b":""}')]),
+    "I64": ("i64", [("-9223372036854775807i64", "-9223372036854775807"), ("0i64", "0")]),
+    "Unit": ("()", [("()", "null"), ("()", "null")]),
     # u32 arguments carrying a forwarded serde(default): plain, and wrapped in a conditional attribute with a true predicate (C17)
     "DfltU32": ("u32", [("7u32", "7"), ("4000000000u32", "4000000000")]),
     "DfltU32W": ("u32", [("7u32", "7"), ("4000000000u32", "4000000000")]),
@@ -26,7 +35,8 @@ TYPES = {
     "GenT": ("GenVal", [("GenVal { g: 7 }", '{"g":7}'), ("GenVal { g: 4000000000 }", '{"g":4000000000}')]),
 }
 # a JSON value of the wrong type for each argument type
-WRONG = {"u32": '"zz"', "String": "5", "bool": '"zz"', "OptU32": '"zz"', "VecString": "5", "Nested": "5", "Uint128": "true", "Binary": "5", "U128": "true", "GenT": "5", "DfltU32": '"zz"', "DfltU32W": '"zz"'}
+WRONG = {"u32": '"zz"', "String": "5", "bool": '"zz"', "OptU32": '"zz"', "VecString": "5", "Nested": "5", "Uint128": "true", "Binary": "5", "U128": "true", "GenT": "5", "DfltU32": '"zz"', "DfltU32W": '"zz"',
+         "CoinQ": "5", "Arr4": '"zz"', "MapSU": "5", "OptVecPair": "5", "BoxNested": "5", "I64": '"zz"', "Unit": "5"}
 # attributes written on handler arguments of these types
 PARAM_ATTR = {"DfltU32": "#[serde(default)] ", "DfltU32W": "#[cfg_attr(all(), serde(default))] "}
 
